@@ -98,24 +98,57 @@ def generate(ctx):
             yield 'unit', {'kind': kind, 'impl': impl, 'seed': _seed(rng)}
     yield 'time_unit', {'seed': _seed(rng)}
     # --- trajectories ---------------------------------------------------------------
+    # filter stacks: names (default parameters of dyn.step_filters) or dicts with non-default parameters;
+    # 'fix_time' = time_integration.maybe_fix_sim_time_roundoff as the last step filter; n0 = start time / dt
+    E = lambda **kw: dict(type='exponential', **kw)
+    D = lambda **kw: dict(type='diffusion', **kw)
+    RA = dict(type='robert_asselin', r=0.05); FIX = dict(type='fix_time')
     if quick:
-        combos = [('dry', 'real', 'imex_rk_sil3', 2), ('time', 'fast', 'crank_nicolson_rk4', 1), ('moist', 'real', 'crank_nicolson_rk3', 2),
-                  ('time', 'real', 'backward_forward_euler', 0), ('moist', 'fast', 'imex_rk_sil3', 1), ('dry', 'fast', 'crank_nicolson_rk2', 2),
-                  ('time', 'real', 'semi_implicit_leapfrog', 1),
-                  ('sw', 'real', 'crank_nicolson_rk3', 2), ('sw', 'fast', 'imex_rk_sil3', 1), ('sw', 'real', 'backward_forward_euler', 0)]
+        combos = [('dry', 'real', 'imex_rk_sil3', ['exponential', 'diffusion'], 0, 1),
+                  ('time', 'fast', 'crank_nicolson_rk4', [E(cutoff=0.7, order=2, tau_mult=5), FIX], -10, 1),
+                  ('moist', 'real', 'crank_nicolson_rk3', [E(cutoff=0.3, order=6), D(order=2), FIX], 3, 1),
+                  ('time', 'real', 'backward_forward_euler', [FIX], -3, -1),
+                  ('time', 'real', 'imex_rk_sil3', [E(cutoff=0.4, order=18), D(order=3), FIX], -0.5, 1),
+                  ('moist', 'fast', 'imex_rk_sil3', ['exponential'], 0, 1),
+                  ('dry', 'fast', 'crank_nicolson_rk2', [E(cutoff=0.4, order=1), D(order=3)], 0, 1),
+                  ('time', 'real', 'semi_implicit_leapfrog', [E(cutoff=0.3, order=6), RA, FIX], -10, 1),
+                  ('dry', 'real', 'semi_implicit_leapfrog', [E(cutoff=0.4, order=18, tau_mult=1), RA], 0, 1),
+                  ('sw', 'real', 'semi_implicit_leapfrog', [E(cutoff=0.4, order=18, tau_mult=1), RA], 0, 1),
+                  ('sw', 'real', 'crank_nicolson_rk3', ['exponential', 'diffusion'], 0, 1),
+                  ('sw', 'fast', 'imex_rk_sil3', [E(cutoff=0.3, order=6, tau_mult=2), D(order=2)], 0, 1),
+                  ('sw', 'real', 'backward_forward_euler', [], 0, 1)]
     else:
         combos = []
+        cut = [0.3, 0.4, 0.7]; orders = [1, 2, 6, 18]; taus = [1, 5, 10, 40]; n0s = [-10, -0.5, 0, 3]
+        i = 0
         for kind in ['dry', 'time', 'moist', 'cloud', 'sw']:
             for integ in RK_INTEGRATORS + ('semi_implicit_leapfrog',):
+                lfi = integ == 'semi_implicit_leapfrog'
                 for f in range(3):
                     impls = ('real', 'fast') if (f == 2 or integ == 'imex_rk_sil3') else (('real',) if f == 0 else ('fast',))
                     if kind == 'cloud' and f != 2: continue
                     for impl in impls:
-                        combos.append((kind, impl, integ, f))
-    for kind, impl, integ, f in combos:
-        ctx.count(f'traj:{kind}'); ctx.count(f'integrator:{integ}'); ctx.count(f'filters:{len(FILTER_STACKS[f])}')
-        yield 'traj', {'kind': kind, 'impl': impl, 'integrator': integ, 'filters': FILTER_STACKS[f], 'ks': [1, 2, 5],
-                       'seed': _seed(rng), 'dt': [0.02, 0.01, 0.005][int(rng.integers(0, 3))]}
+                        st = list(FILTER_STACKS[f])
+                        if lfi and f == 2: st = ['exponential', RA]
+                        combos.append((kind, impl, integ, st, 0, 1))
+                # non-default filter parameters, the sim_time clean-up, shifted clocks
+                for rep in range(2):
+                    i += 1
+                    st = [E(cutoff=cut[i % 3], order=orders[i % 4], tau_mult=taus[(i // 2) % 4])]
+                    if rep == 0: st.append(RA if lfi else D(order=1 + i % 3))
+                    elif lfi: st += [RA]
+                    if kind not in ('dry', 'sw'): st.append(FIX)
+                    combos.append((kind, 'real' if (i + rep) % 2 else 'fast', integ, st, n0s[i % 4], 1))
+            if kind in ('time', 'moist'):
+                for integ in ('backward_forward_euler', 'crank_nicolson_rk3', 'imex_rk_sil3'):
+                    combos.append((kind, 'real', integ, [FIX], -3, -1))         # negative dt, positive start time
+                    combos.append((kind, 'real', integ, [D(order=2), FIX], 10, -1))
+    for kind, impl, integ, st, n0, sgn in combos:
+        ctx.count(f'traj:{kind}'); ctx.count(f'integrator:{integ}'); ctx.count(f'filters:{len(st)}')
+        if any(isinstance(f, dict) and f.get('cutoff') for f in st): ctx.count('stack:exponential cutoff>0')
+        if FIX in st: ctx.count(f'stack:fix_time n0={n0} dt{"<" if sgn < 0 else ">"}0')
+        yield 'traj', {'kind': kind, 'impl': impl, 'integrator': integ, 'filters': st, 'ks': [1, 2, 5], 'n0': n0,
+                       'seed': _seed(rng), 'dt': sgn * [0.02, 0.01, 0.005][int(rng.integers(0, 3))]}
 
 
 # ---------------------------------------------------------------------------
@@ -303,21 +336,21 @@ def r_traj(ctx, a):
     x0 = _state(rng, kind, c, q0)
     lf = name == 'semi_implicit_leapfrog'
     step = dyn.integrator(name, eq, dt)
-    if lf:
-        fl = []
-        if 'exponential' in a['filters']: fl.append(ti.exponential_leapfrog_step_filter(g, dt, tau=10 * dt, order=3))
-        if 'diffusion' in a['filters']: fl.append(ti.robert_asselin_leapfrog_filter(0.05))
-    else:
-        fl = dyn.step_filters(a['filters'], g, dt)
+    specs = [{'type': f} if isinstance(f, str) else dict(f) for f in a['filters']]
+    fl = _build_filters(specs, g, dt, lf)
+    fix = any(f['type'] == 'fix_time' for f in specs)
+    n0 = a.get('n0', 0)
     step = ti.step_with_filters(step, fl)
     kmax = max(a['ks'])
     if lf:
         x1 = _state(rng, kind, c, q0)          # a second admissible snapshot
-        if hasattr(x1, 'sim_time'): x1 = _map_named(x1, lambda n, v: jnp.asarray(dt) if n == 'sim_time' else v)
+        if hasattr(x1, 'sim_time'): x1 = _map_named(x1, lambda n, v: jnp.asarray((n0 + 1) * dt) if n == 'sim_time' else v)
         if kind == 'sw':                       # both snapshots carry the same mean thickness
             x1 = _map_named(x1, lambda n, v: v.at[..., 0, 0].set(x0.potential[..., 0, 0]) if n == 'potential' else v)
+        if hasattr(x0, 'sim_time'): x0 = _map_named(x0, lambda n, v: jnp.asarray(n0 * dt) if n == 'sim_time' else v)
         init = (x0, x1)
     else:
+        if hasattr(x0, 'sim_time'): x0 = _map_named(x0, lambda n, v: jnp.asarray(n0 * dt) if n == 'sim_time' else v)
         init = x0
     _, traj = jax.jit(ti.trajectory_from_step(step, kmax, 1))(init)
     has_time = kind not in ('dry', 'sw')
@@ -344,11 +377,44 @@ def r_traj(ctx, a):
             q = L[f'tracers[{UNIFORM}]']; qi = L0[f'tracers[{UNIFORM}]']
             ctx.oracle_close('a horizontally and vertically uniform tracer stays uniform', q, qi, scale=q0, tol_rel=1e-11)
         if has_time:
-            tk = float(L['sim_time'])
-            want = (k + 1) * dt if lf else k * dt
-            ctx.oracle_close('sim_time advances by the step size per step', [tk], [want], scale=want, tol_rel=1e-11)
+            times = [(float(dict(_leaves(sts[0]))['sim_time']), n0 + k), (float(L['sim_time']), n0 + k + 1)] if lf else [(float(L['sim_time']), n0 + k)]
+            for tk, n in times:
+                want = n * dt
+                if fix and float(n0) != int(n0):
+                    # clock not on the dt lattice: the clean-up snaps to a neighbouring lattice point
+                    ctx.oracle('maybe_fix_sim_time_roundoff returns a multiple of dt next to the unrounded time',
+                               tk == dt * round(tk / dt) and abs(tk - want) <= 0.5 * abs(dt) * (1 + 1e-9), {'k': k, 'sim_time': tk, 'unrounded': want})
+                    continue
+                ctx.oracle_close('sim_time advances by the step size per step', [tk], [want], scale=max(abs(want), k * abs(dt)), tol_rel=1e-11)
+                if fix:
+                    ctx.oracle('with maybe_fix_sim_time_roundoff as last filter sim_time is exactly (n0 + k) * dt',
+                               tk == dt * float(n), {'k': k, 'n0': n0, 'sim_time': tk, 'want': dt * float(n)})
+
+
+def _build_filters(specs, g, dt, lf):
+    """step filters from specs; tau is given as a multiple of dt (so dt / tau > 0 also for negative dt)"""
+    m = dyn.mods(); ti = m['ti']; filtering = m['filtering']
+    out = []
+    for f in specs:
+        t = f['type']
+        if t == 'exponential':
+            mk = ti.exponential_leapfrog_step_filter if lf else ti.exponential_step_filter
+            out.append(mk(g, dt, tau=f.get('tau_mult', 10) * dt, order=f.get('order', 3), cutoff=f.get('cutoff', 0)))
+        elif t == 'diffusion':
             if lf:
-                ctx.oracle_close('sim_time advances by the step size per step', [float(dict(_leaves(sts[0]))['sim_time'])], [k * dt], scale=want, tol_rel=1e-11)
+                order = f.get('order', 1)
+                scale = dt / (f.get('tau_mult', 20) * dt * abs(g.laplacian_eigenvalues).max() ** order)
+                out.append(ti.leapfrog_step_filter(filtering.horizontal_diffusion_filter(g, scale, order)))
+            else:
+                out.append(ti.horizontal_diffusion_step_filter(g, dt, tau=f.get('tau_mult', 20) * dt, order=f.get('order', 1)))
+        elif t == 'robert_asselin':
+            out.append(ti.robert_asselin_leapfrog_filter(f.get('r', 0.05)))
+        elif t == 'fix_time':
+            fixfn = lambda s: ti.maybe_fix_sim_time_roundoff(s, dt)
+            out.append(ti.leapfrog_step_filter(fixfn) if lf else ti.runge_kutta_step_filter(fixfn))
+        else:
+            raise ValueError(t)
+    return out
 
 
 AMP = dict(vorticity=1e-2, divergence=1e-3, temperature_variation=1.0, log_surface_pressure=1e-2, potential=0.1)
@@ -467,14 +533,24 @@ def r_time_unit(ctx, a):
     for gd in (GRIDS['real'], GRIDS['fast'], dict(M=2, L=2, I=6, J=4, impl='real')):
         g = dyn.grid(**gd)
         x = {'u': jnp.asarray(dyn.modal_field(rng, g, (2,), 3) + 1.0 * np.asarray(g.mask)), 'sim_time': jnp.asarray(1.375), 't_py': 2.5}
-        fns = {'exponential_filter': filtering.exponential_filter(g, 16, 2), 'horizontal_diffusion_filter': filtering.horizontal_diffusion_filter(g, 0.5, 1),
-               'exponential_step_filter': (lambda f: (lambda s: f(s, s)))(ti.exponential_step_filter(g, 0.1, tau=1.0, order=2)),
-               'horizontal_diffusion_step_filter': (lambda f: (lambda s: f(s, s)))(ti.horizontal_diffusion_step_filter(g, 0.1, tau=1.0, order=1))}
+        both = lambda f: (lambda s: f(s, s))
+        fns = {}
+        for cutoff in (0, 0.3, 0.4, 0.7):
+            for att, order in ((16, 2), (16, 18), (2.5, 6), (0.125, 1)):
+                fns[f'exponential_filter(att={att},order={order},cutoff={cutoff})'] = filtering.exponential_filter(g, att, order, cutoff)
+            fns[f'exponential_step_filter(cutoff={cutoff})'] = both(ti.exponential_step_filter(g, 0.1, tau=1.0, order=2 if cutoff else 18, cutoff=cutoff))
+            lfilt = ti.exponential_leapfrog_step_filter(g, 0.1, tau=0.5, order=6, cutoff=cutoff)
+            fns[f'exponential_leapfrog_step_filter(cutoff={cutoff})'] = (lambda f: (lambda s: f((s, s), (s, s))[1]))(lfilt)
+        for order in (1, 2, 3):
+            fns[f'horizontal_diffusion_filter(order={order})'] = filtering.horizontal_diffusion_filter(g, 0.5, order)
+            fns[f'horizontal_diffusion_step_filter(order={order})'] = both(ti.horizontal_diffusion_step_filter(g, 0.1, tau=1.0, order=order))
         for nm, fn in fns.items():
             y = fn(x)
             ctx.oracle('filters leave sim_time untouched', float(y['sim_time']) == 1.375 and float(y['t_py']) == 2.5,
                        {'filter': nm, 'grid': gd, 'sim_time': float(y['sim_time']), 't_py': float(y['t_py'])})
-            ctx.oracle('filters leave the (0,0) coefficients unchanged', bool(np.all(np.asarray(y['u'])[..., 0, 0] == np.asarray(x['u'])[..., 0, 0])))
+            ctx.oracle('filters leave the (0,0) coefficients unchanged', bool(np.all(np.asarray(y['u'])[..., 0, 0] == np.asarray(x['u'])[..., 0, 0])),
+                       {'filter': nm, 'grid': gd, 'after': np.asarray(y['u'])[..., 0, 0], 'before': np.asarray(x['u'])[..., 0, 0]})
+            ctx.oracle('filters keep exact zeros outside the truncation', bool(np.all(np.asarray(y['u'])[..., ~np.asarray(g.mask)] == 0.0)), {'filter': nm})
 
 
 RUNNERS = {'toy': r_toy, 'scalar': r_scalar, 'pattern': r_pattern, 'traj': r_traj, 'unit': r_unit, 'time_unit': r_time_unit}
